@@ -12,6 +12,10 @@
 #include <stdlib.h>
 #include <string.h>
 
+#ifdef VERIF_TYPED_CALLOC
+void *verif_typed_calloc(size_t size);   /* harness: typed zeroed object for this size, or NULL */
+bool verif_typed_release(void *p);       /* harness: true if p came from a typed pool (then it is not passed to free) */
+#endif
 static struct aws_allocator s_verif_alloc; /* identity only; vtable unused */
 struct aws_allocator *verif_allocator(void) { return &s_verif_alloc; }
 struct aws_allocator *aws_default_allocator(void) { return &s_verif_alloc; }
@@ -57,6 +61,12 @@ void *aws_mem_calloc(struct aws_allocator *allocator, size_t num, size_t size) {
     ASSERT(num != 0 && size != 0, "aws_mem_calloc: zero size (library aborts)");
     size_t tot;
     ASSERT(!__builtin_mul_overflow(num, size, &tot), "aws_mem_calloc: size overflow (library aborts)");
+#ifdef VERIF_TYPED_CALLOC
+    /* the harness may hand out a statically TYPED, zeroed object for this size (objects allocated through a generic wrapper are byte
+     * arrays for CBMC, which makes every field access a byte-extract) */
+    void *tp = verif_typed_calloc(tot);
+    if (tp) { vt_add(tp, tot); return tp; }
+#endif
     void *p = verif_alloc_split(tot);
     memset(p, 0, tot);
     vt_add(p, tot);
@@ -68,7 +78,13 @@ void aws_mem_release(struct aws_allocator *allocator, void *ptr) {
     /* released blocks are never recycled and never invalidated (use-after-free is then not detectable; stated where used) */
     if (ptr) { vt_del(ptr); }
 #else
-    if (ptr) { vt_del(ptr); free(ptr); }
+    if (ptr) {
+        vt_del(ptr);
+#    ifdef VERIF_TYPED_CALLOC
+        if (verif_typed_release(ptr)) return;
+#    endif
+        free(ptr);
+    }
 #endif
 }
 int aws_mem_realloc(struct aws_allocator *allocator, void **ptr, size_t oldsize, size_t newsize) {
